@@ -4,7 +4,7 @@ F-hash / F-sort / F-mask / wiring rules for C01, C17, C19.
 """
 import ast
 from .core import AnalysisError
-from .astutil import src, strip_doc
+from .astutil import expand_locals, src, strip_doc
 
 # structure-only integer (or bool) attributes that may feed a refinement hash; Optional ones need `or 0`
 INT_ATTRS = {'atomic_number', 'charge', 'p_charge', 'is_radical', 'p_is_radical', 'in_ring', 'neighbors', 'heteroatoms',
@@ -104,9 +104,14 @@ def rule_order_free_hash(ck, repo, R, funcs):
         for p in ast.walk(f.node):
             for c in ast.iter_child_nodes(p):
                 parents[c] = p
-        for call in ast.walk(f.node):
-            if not (isinstance(call, ast.Call) and isinstance(call.func, ast.Name) and call.func.id == 'hash'):
+        for call0 in ast.walk(f.node):
+            if not (isinstance(call0, ast.Call) and isinstance(call0.func, ast.Name) and call0.func.id == 'hash'):
                 continue
+            call = expand_locals(call0, f.node)  # `env = sorted(...); hash((x, *env))` is the same shape as the nested form
+            ast.copy_location(call, call0)
+            for p in ast.walk(call):
+                for c in ast.iter_child_nodes(p):
+                    parents[c] = p
             for g in ast.walk(call):
                 if not isinstance(g, (ast.GeneratorExp, ast.ListComp, ast.SetComp)):
                     continue
@@ -135,9 +140,9 @@ def rule_final_ranking(ck, repo, R):
     f = repo.func('chython.algorithms.morgan:_morgan')
     ret = [n for n in strip_doc(f.node.body) if isinstance(n, ast.Return)]
     ck.require(len(ret) == 1, '_morgan: single final return not found')
-    gb = [c for c in ast.walk(ret[0]) if isinstance(c, ast.Call) and isinstance(c.func, ast.Name) and c.func.id == 'groupby']
+    gb = [c for c in ast.walk(f.node) if isinstance(c, ast.Call) and isinstance(c.func, ast.Name) and c.func.id == 'groupby']
     ck.require(len(gb) == 1, '_morgan: groupby ranking not found')
-    g = gb[0]
+    g = expand_locals(gb[0], f.node)  # `ranked = sorted(...); groupby(ranked, ...)` is the same ranking
     srt = g.args[0] if g.args else None
     gkey = next((src(k.value) for k in g.keywords if k.arg == 'key'), None)
     ok = isinstance(srt, ast.Call) and isinstance(srt.func, ast.Name) and srt.func.id == 'sorted'
